@@ -332,4 +332,21 @@ theorem inv_reach (cfg : Cfg) (prog : Tid → List Op) (sched : List Tid) :
     Inv cfg (run cfg (init cfg prog) sched) :=
   inv_run cfg sched _ (inv_init cfg prog)
 
+theorem settle_is_run (cfg : Cfg) (t : Tid) : ∀ n st, ∃ sched, settle cfg n st t = run cfg st sched := by
+  intro n
+  induction n with
+  | zero => intro st; exact ⟨[], rfl⟩
+  | succ n ih =>
+    intro st
+    simp only [settle]
+    split
+    · exact ⟨[], rfl⟩
+    · obtain ⟨s, hs⟩ := ih (step cfg st t); exact ⟨t :: s, by simpa [run] using hs⟩
+
+theorem run_append (cfg : Cfg) : ∀ (a b : List Tid) st, run cfg st (a ++ b) = run cfg (run cfg st a) b := by
+  intro a
+  induction a with
+  | nil => intro b st; rfl
+  | cons t a ih => intro b st; simp [run, ih]
+
 end Pypyr.CacheTS
